@@ -161,8 +161,14 @@ impl Transformation<String> {
 
   pub fn used_vars(&self) -> &str {
     // NOTE: meta_var in transform always starts with `$`, for now
+    // `parse` validates the prefix later: do not slice by byte index here, the
+    // source may be empty or start with a multi-byte char.
     let s = self.source();
-    s.strip_prefix("$$$").unwrap_or_else(|| &s[1..])
+    s.strip_prefix("$$$").unwrap_or_else(|| {
+      let mut chars = s.chars();
+      chars.next();
+      chars.as_str()
+    })
   }
 }
 impl Transformation<MetaVariable> {
